@@ -446,8 +446,9 @@ class CMapParser(PSStackParser[PSKeyword]):
                         )
                     for cid, unicode_value in zip(range(start, end + 1), code):
                         self.cmap.add_cid2unichr(cid, unicode_value)
+                elif not isinstance(code, bytes):
+                    self._warn_once("The code object is not a byte or a list.")
                 else:
-                    assert isinstance(code, bytes)
                     var = code[-4:]
                     base = nunpack(var)
                     prefix = code[:-4]
